@@ -6,6 +6,7 @@ CONSTANT MaxProofs = 3
 CONSTANT NInputs = 2
 CONSTANT NoRepeat = FALSE
 CONSTANT CheckRestore = FALSE
+CONSTANT Nondegenerate = TRUE
 CONSTANT Mutant = "generators"
 INIT Init
 NEXT Next
